@@ -353,7 +353,10 @@ pub fn gen_history(rng: &mut Rng, o: &HistOpts) -> Vec<Op> {
 /// Size thresholds are fault lines too: hubs with more than 32 neighbours, batches of 64-100 edges, a
 /// universe of 40-70 names whose insertion order is unrelated to their sort order, hubs inserted late.
 fn gen_big_history(rng: &mut Rng, o: &HistOpts) -> Vec<Op> {
-    let k = rng.range(40, 70);
+    // one big history in three is scaled up so that batches cross 128 / 256 / 512 / 1 024 elements (bulk paths of
+    // batch insertion), with names to match so that late elements still name nodes not seen before
+    let scale = *rng.pick(&[1usize, 1, 1, 1, 2, 4, 4, 8, 16]);
+    let k = rng.range(40, 70) * scale;
     let mut names: Vec<String> = (0..k).map(|i| format!("{}{}", ["h", "H", "n", "q"][i % 4], i)).collect();
     rng.shuffle(&mut names);
     let hubs: Vec<String> = (0..if rng.chance(2, 3) { 1 } else { 2 }).map(|_| rng.pick(&names).clone()).collect();
@@ -372,7 +375,7 @@ fn gen_big_history(rng: &mut Rng, o: &HistOpts) -> Vec<Op> {
     }
     let batches = g.rng.range(1, 3);
     for _ in 0..batches {
-        let len = g.rng.range(64, 100);
+        let len = g.rng.range(64, 100) * scale;
         let mut v: Vec<E> = vec![];
         for _ in 0..len {
             let e = if g.rng.chance(2, 3) {
